@@ -196,6 +196,10 @@ def instances(tier):
     for nm in ("GaussLegendre4", "GaussLegendre6", "ImplicitMidpoint"):
         out.append(dict(id="tableau-%s" % nm, kind="tableau", cls=nm, budget=b))
         out.append(dict(id="rotation-step-%s" % nm, kind="rotation", cls=nm, budget=b))
+    # the implicit symplectic classes are symplectic only as far as their stage equations are SOLVED: an unsolved stage system is
+    # never accepted, whatever step the controller proposes next (the scenario of C02, run for these classes under C10)
+    for nm in ("GaussLegendre4", "GaussLegendre6", "ImplicitMidpoint"):
+        out.append(dict(id="unsolved-stages-never-accepted-%s" % nm, kind="unsolved", cls=nm, shape=[1], mode="accept", ctrl="free", budget=dict(b, max_paths=300)))
     out.append(dict(id="flags", kind="flags", budget=b))
     return out
 
@@ -283,6 +287,9 @@ def scenario(c, inst):
     if kind in ("mask_ctor", "mask_ode"):
         _masks(c, inst)
         return
+    if kind == "unsolved":
+        from . import c02_step as C02
+        return C02.scenario(c, inst)
     if kind == "mask_default_after_custom":
         _mask_default_after_custom(c, inst)
         return
